@@ -19,7 +19,7 @@ CHECKS = {
                 text="Exact equality of every recorded ts_scheduled/ts_max/ts_start/ts_end/delay/phase_scheduled and message ts_sent/ts_recv with the law; derived spacing/phase/advance claims are TLC invariants of the law."),
     "C05": dict(level="model_checking", ref="6 C05",
                 technique="PlusCal model of the synchronizer/lifecycle hand-shake (RexSync) exhaustively + deterministic gate-scheduler exploration of the real AsyncGraph over lifecycle histories + trace validation of consecutive episodes",
-                text="RexSync (one label per shared access) has no stall state for any protocol history up to the bound with stop() as repaired, and finds both pinned defects with Fixed=FALSE; the real code is driven through 8 lifecycle histories x gate schedules: a logical deadlock, an escaped exception or a failed worker task is a violation; records of later episodes must be behaviours of the law from seq 0 / time 0 with payloads of their own episode only."),
+                text="RexSync (one label per shared access) has no stall state for any protocol history up to the bound with stop() as repaired, and finds both pinned defects with Fixed=FALSE; the real code is driven through 8 lifecycle histories x gate schedules: a logical deadlock, an escaped exception or a failed worker task is a violation; records of later episodes must be behaviours of the law from seq 0 / time 0 with payloads of their own episode only. The same histories run under Clock.WALL_CLOCK (gate, strictly increasing virtual time): calls must return, completed episodes are validated by RexOrder (sequence numbers from 0)."),
     "C06": dict(level="model_checking", ref="6 C06",
                 technique="trace validation: probe-log execution counts against RexLaw ticks (RexTrace clauses ExactlyOnce*) and against the compiled schedule (RexCompiled)",
                 text="The host-side probe log is the execution count: RexTrace consumes exactly one log entry per executed tick in sequence order, none for overridden / cancelled supervisor ticks, and rejects leftovers."),
